@@ -312,6 +312,24 @@ func runC19() {
 		checkLate(c)
 	}
 
+	// Deep backlog ("without the producers EVER waiting for the broker"): the sink stalls at its
+	// first batch and 62 000-70 000 events are published against it - several times the 10 000-slot
+	// channel, beyond any plausible high-water mark of the buffer behind it. Same oracle.
+	deepRuns := 2
+	if !vlib.Quick(c) {
+		deepRuns = 16
+	}
+	dlo, dhi := c.Slice(deepRuns)
+	for i := dlo; i < dhi; i++ {
+		r := c.SubRand(int64(4000000 + i))
+		sp := spec{Idx: 4000000 + i, P: []int{1, 4}[r.Intn(2)], Pattern: "burst", Sink: "gated", CloseMode: []string{"after-last", "full-fifo"}[r.Intn(2)],
+			HoldAt: 0, Envs: 1 + r.Intn(3), RandSeed: r.Int63(), Total: 62000 + r.Intn(8001), ShapeUS: 200}
+		c.Count("deep_backlog_runs", 1)
+		if !runOne(c, sp, c.Case(sp), 0) {
+			break
+		}
+	}
+
 	// Every seed visits the 81 combinations (P x pattern x sink x close mode) in
 	// its own order; run i takes combination perm[i mod 81].
 	perm := rand.New(rand.NewSource(c.Seed*7777777 + 5)).Perm(81)
